@@ -44,6 +44,8 @@ pub struct Recorder {
     pub variant: Variant,
     pub rng: StdRng,
     pub print_every: bool,
+    /// every (renamed) name handed to the builder so far, any builder
+    pub name_pool: std::collections::BTreeSet<String>,
 }
 
 pub fn resmap_of(v: &Variant) -> BTreeMap<Res, Cell> {
@@ -126,6 +128,7 @@ impl Recorder {
             variant,
             rng,
             print_every,
+            name_pool: Default::default(),
         }
     }
 
@@ -171,6 +174,29 @@ impl Recorder {
         if self.print_every {
             self.print(bidx, b);
         }
+        if self.rng.gen_bool(0.15) {
+            self.query(bidx, b);
+        }
+    }
+
+    /// is_empty / num_systems / has_system / contains on a few registered and unregistered names
+    pub fn query(&mut self, bidx: usize, b: &DispatcherBuilder<'static, 'static>) {
+        let mut probe: Vec<String> = Vec::new();
+        let known: Vec<String> = self.name_pool.iter().cloned().collect();
+        for _ in 0..3 {
+            if let Some(n) = known.choose(&mut self.rng) {
+                probe.push(n.clone());
+                if let Some(t) = crate::prog::sanitise_twin(&mut self.rng, n) {
+                    probe.push(t);
+                }
+            }
+        }
+        probe.push("no such system".to_string());
+        probe.push(String::new());
+        let has: Vec<bool> = probe.iter().map(|n| b.has_system(n)).collect();
+        let contains: Vec<bool> = probe.iter().map(|n| b.contains(n)).collect();
+        self.events.push(json!({"ev":"query","b":bidx,"num":b.num_systems(),"empty":b.is_empty(),
+            "probe": probe.iter().map(|n| codes(n)).collect::<Vec<_>>(),"has":has,"contains":contains}));
     }
 
     pub fn print(&mut self, bidx: usize, b: &DispatcherBuilder<'static, 'static>) {
@@ -397,6 +423,9 @@ impl Recorder {
         after: &VerifLayout,
         extra: Value,
     ) {
+        if !name.is_empty() {
+            self.name_pool.insert(name.to_string());
+        }
         let new = self.snapshot_new_addr(before, after);
         let (outk, quoted) = match &out {
             Ok(()) => ("ok".to_string(), String::new()),
